@@ -1093,7 +1093,7 @@ def apalache_inductive(module, cinit, indinit, inv):
 
 @check("C16")
 def c16(run):
-    run.assumptions += ["every interleaving TLC enumerates for 2 threads x (fail, read, fail, read) (70 schedules; thorough also 3 threads x (fail, read, read): 1680) is replayed by a coordinator that releases one thread step at a time through channels (no timing); failing calls differ per thread and per step so that descriptions are distinguishable",
+    run.assumptions += ["every interleaving TLC enumerates for 2 threads x (fail, read, fail, read) (70 schedules; thorough also 3 threads x (fail, read, read): 1680) is replayed by a coordinator that releases one thread step at a time through channels (no timing); failing calls differ per thread and per step so that descriptions are distinguishable; every schedule is also run with all threads failing in the same way (identical descriptions) and mirrored",
                         "table entries are called from Rust threads through fn_table(); the slot is the library's thread-local either way"]
     res, out = run.model("MC_Slots", "MC_Slots.cfg", workers=1)
     scheds = [("2", ["F", "R", "F", "R"], json.loads(r)) for _, r in vlib.prints(out, "REPLAY")]
@@ -1108,6 +1108,10 @@ def c16(run):
     for n, prog, order in scheds:
         for _ in range(reps):
             scen.append(json.dumps({"do": "threads", "n": int(n), "program": prog, "order": order}, separators=(",", ":")))
+        # the same schedule with threads failing in the same way (identical descriptions on different threads:
+        # whose slot a read sees only shows once one of them fails differently), and mirrored
+        scen.append(json.dumps({"do": "threads", "n": int(n), "program": prog, "order": order, "kinds": [[0, 1]]}, separators=(",", ":")))
+        scen.append(json.dumps({"do": "threads", "n": int(n), "program": prog, "order": order, "kinds": [[0, 1], [1, 0], [0, 2]]}, separators=(",", ":")))
     # thread churn: one thread fails and keeps its handle while many other threads fail, then everybody reads
     for n in (70, 130, 300):
         order = list(range(1, n + 1)) + list(range(1, n + 1))
@@ -1122,7 +1126,7 @@ def c16(run):
     run.cov["evaluations"] += len(obs)
     run.cov["schedules_enumerated_by_tlc"] = len(scheds)
     run.cov["traces_validated_against_impl"] += len(obs) - len(bad)
-    run.cov["distinct_nontrivial"] = facts.get("alternating", 0) // reps
+    run.cov["distinct_nontrivial"] = facts.get("alternating", 0) // (reps + 2)
     run.cov["exhaustive"] = True
     run.cov["rule"] = "one execution per (schedule, repetition); distinct = schedules; non-trivial = the threads' steps alternate at least twice in a row"
     run.cov["samples"] = [vlib.shorten(o, 600) for o in vlib.sample(obs, 2)]
@@ -1145,6 +1149,12 @@ def purity_pool():
     shifted = H.hdr(3, 0x8180, 1, 3, 0, 0) + H.name("pad" * 10, "ex") + [0, 1, 0, 1] + H.rr(H.name("h00", "zone0", "ex"), 1, 1, [1, 1, 1, 1]) + H.rr(H.name("x", "zone1", "ex"), 5, 2, H.name("h01", "zone1", "ex")) + H.rr(H.name("zone0", "ex"), 2, 3, H.name("ns", "zone0", "ex"))
     comp = H.base_packets()[0]
     bad = comp[:-3]
+    # 20 records with pairwise distinct names (40 suffixes: the last ones stay in the highest dictionary slots) and a
+    # short packet that repeats only the last of them
+    few = H.hdr(6, 0x8180, 1, 20, 0, 0) + q
+    for i in range(20):
+        few += H.rr(H.name("s%02d" % i, "t%02d" % i), 1, i, [10, 1, 0, i])
+    probe = H.hdr(8, 0x8180, 1, 2, 0, 0) + q + H.rr(H.name("s19", "t19"), 1, 1, [1, 1, 1, 1]) + H.rr(H.name("w", "s18", "t18"), 1, 2, [2, 2, 2, 2])
     pool = [
         {"f": "compress", "pkt": many}, {"f": "compress", "pkt": share}, {"f": "compress", "pkt": shifted},
         {"f": "uncompress", "pkt": comp}, {"f": "uncompress", "pkt": H.base_packets()[2]},
@@ -1167,21 +1177,38 @@ def purity_pool():
         {"f": "synth", "pkt": [], "text": "example.com. 5 IN NS EXAMPLE.COM."}, {"f": "synth", "pkt": [], "text": "example.net. 5 IN A 1.2.3.4"},
         {"f": "compress", "pkt": H.hdr(5, 0x8180, 1, 1, 0, 0) + H.name("Q", "EX") + [0, 1, 0, 1] + H.rr(H.name("h00", "ZONE0", "EX"), 1, 1, [1, 1, 1, 1])},
         {"f": "parse", "pkt": H.base_packets()[4]}, {"f": "uncompress", "pkt": H.base_packets()[4]},
+        # 27..30: set-up / light filler / probes of the long-run histories (see long_run_histories)
+        {"f": "compress", "pkt": few}, {"f": "compress", "pkt": H.hdr(7, 0x8180, 1, 0, 0, 0) + q},
+        {"f": "compress", "pkt": probe}, {"f": "rename", "pkt": probe, "target": H.name("net"), "source": H.name("org"), "suffix": True},
     ]
     for i, c in enumerate(pool):
         c["x"] = i
     return pool
 
 
+def long_run_histories(pool):
+    """state that only shows after many calls (a counter that wraps, a table that fills up): a set-up call, then
+    W - 1 + d light calls of one kind, then probes that share names with the set-up, for W = 2^8 and 2^16"""
+    setup, light, probe_c, probe_r = pool[27], pool[28], pool[29], pool[30]
+    out = []
+    for w in (256, 65536):
+        for d in (-2, -1, 0, 1):
+            for filler in (light, pool[3], pool[13]):          # compress / uncompress / name conversion as the light call
+                calls = [setup, dict(filler, rep=w - 1 + d), probe_c, probe_r]
+                out.append(json.dumps({"do": "purity", "threads": 1, "calls": calls}, separators=(",", ":")))
+    return out
+
+
 @check("C17")
 def c17(run):
-    run.assumptions += ["histories: every ordered pair (thorough: triple) of calls from a pool of 14, enumerated by TLC and executed back to back on one thread of one process, then the pool executed concurrently on 2, 4 and 8 threads in rotated orders, repeated; outputs are logged in full and TLC keeps a memo across the whole trace",
+    run.assumptions += ["histories: every ordered pair (thorough: triple) of calls from a pool of 31, long-run histories (a set-up call, 2^8 and 2^16 -2..+1 light calls, probes sharing names with the set-up), enumerated by TLC and executed back to back on one thread of one process, then the pool executed concurrently on 2, 4 and 8 threads in rotated orders, repeated; outputs are logged in full and TLC keeps a memo across the whole trace",
                         "for parse the 'output' is the bytes plus every public field of the parsed object; for ParsedPacket::empty() and synth::gen::query() the two id bytes are not compared"]
     pool = purity_pool()
     seqs = [json.loads(x) for x in gen_tla(run, "Gen_Hist", "Gen_Hist_purity%d.cfg" % (2 if quick(run) else 3))]
     scen = []
     for s in seqs:
         scen.append(json.dumps({"do": "purity", "threads": 1, "calls": [pool[int(c[1:])] for c in s]}, separators=(",", ":")))
+    scen += long_run_histories(pool)
     for n in (2, 4, 8):
         for rep in range(5 if quick(run) else 50):
             scen.append(json.dumps({"do": "purity", "threads": n, "reps": 3, "calls": pool}, separators=(",", ":")))
